@@ -474,7 +474,7 @@ func runE2E(c *core.Ctx, cl cell, p *e2ePlan) {
 		}
 	})
 	if hsPanic != nil {
-		c.Violation("c25-handshake-"+hsPanic.Key, hsPanic.Value+"\n"+hsPanic.Stack, id, p)
+		c.Violation("c25-handshake-"+panicKey(hsPanic), hsPanic.Value+"\n"+hsPanic.Stack, id, p)
 		return
 	}
 	defer r.Close()
@@ -619,7 +619,7 @@ func runE2E(c *core.Ctx, cl cell, p *e2ePlan) {
 	resBA.got, resBA.readErr, resBA.reads = rdBA.got, rdBA.readErr, rdBA.reads
 	for _, pi := range []*core.PanicInfo{resAB.panicked, resBA.panicked, rdAB.panicked, rdBA.panicked} {
 		if pi != nil {
-			c.Violation("c25-"+pi.Key, pi.Value+"\n"+pi.Stack, id, p)
+			c.Violation("c25-"+panicKey(pi), pi.Value+"\n"+pi.Stack, id, p)
 			return
 		}
 	}
